@@ -54,14 +54,14 @@ package expressions
 // panics with one of the typed panic values that expression.Evaluate turns into errors.
 //@ func functype func(expressions.Context) values.Value
 //@ names ctx
-//@ requires args: ctx != nil
+//@ requires args: ctx != nil && (is(ctx, *expressions.context) ==> pl_ptr(ctx) != 0)
 //@ assigns *
 //@ panics values.TypeError, expressions.InterpreterError, expressions.UndefinedFilter, expressions.FilterError
 //@ ensures nonnil: result != nil
 //@ ensures cells: @evalframe
 //@ func functype expressions.valueFn
 //@ names ctx
-//@ requires args: ctx != nil
+//@ requires args: ctx != nil && (is(ctx, *expressions.context) ==> pl_ptr(ctx) != 0)
 //@ assigns *
 //@ panics values.TypeError, expressions.InterpreterError, expressions.UndefinedFilter, expressions.FilterError
 //@ ensures nonnil: result != nil
